@@ -77,6 +77,34 @@ _CANON = {
 }
 
 
+_NESTED_INDEX = None
+
+
+def _nested_defs(fn):
+    return [s for s in ast.walk(fn) if isinstance(s, ast.FunctionDef) and s is not fn]
+
+
+def _nested_by_position(outer, name):
+    global _NESTED_INDEX
+    if _NESTED_INDEX is None:
+        import json
+        p = os.path.join(os.path.dirname(os.path.abspath(__file__)), "nested_index.json")
+        _NESTED_INDEX = json.load(open(p)) if os.path.exists(p) else {}
+    ents = list(_NESTED_INDEX.get(f"{outer.name}/{name}", []))
+    if not ents:
+        # the outer function itself may have been found by position: every recorded outer with this nested name
+        ents = [e for k, v in _NESTED_INDEX.items() if k.endswith("/" + name) for e in v]
+    defs = _nested_defs(outer)
+    hits = set()
+    for ent in ents:
+        if len(defs) == ent["n_defs"]:
+            d = defs[ent["index"]]
+            n_params = len(d.args.posonlyargs) + len(d.args.args) + (1 if d.args.vararg else 0) + (1 if d.args.kwarg else 0)
+            if n_params == ent["n_params"]:
+                hits.add(ent["index"])
+    return defs[hits.pop()] if len(hits) == 1 else None
+
+
 class Program:
     def __init__(self, root: str | None = None):
         self.root = root or PKG_ROOT
@@ -242,6 +270,10 @@ class Program:
 
     @staticmethod
     def nested(fn: ast.FunctionDef, *names: str) -> ast.FunctionDef:
+        """the nested function `names[0]` (then `names[1]` inside it, ...) of fn.  A nested function that was merely RENAMED is still found: the committed
+        table sa/nested_index.json records, for every (outer function, nested name) the rules look up, the position of the nested def among the outer
+        function's nested defs and its parameter count on the tree the rules were written against; when the name is gone but the outer function still has
+        the same number of nested defs and the def at that position has that many parameters, it is the anchor (role by position and arity)."""
         cur = fn
         for n in names:
             found = None
@@ -249,6 +281,8 @@ class Program:
                 if isinstance(s, ast.FunctionDef) and s.name == n and s is not cur:
                     found = s
                     break
+            if found is None:
+                found = _nested_by_position(cur, n)
             if found is None:
                 raise AnchorMissing(f"nested function {n} not found in {fn.name}")
             cur = found
